@@ -5,6 +5,7 @@ import (
 	"fmt"
 	"net/http"
 	"net/url"
+	"regexp"
 	"sort"
 	"strings"
 	"testing"
@@ -473,7 +474,13 @@ func exec(t *testing.T, x any, s hx.Sched) *hx.Outcome {
 	return o
 }
 
+var segStart = regexp.MustCompile(`b\d+\.`)
+
 func normMsg(s string) string {
+	// a body assembled from several requests may follow the message: cut it off
+	if loc := segStart.FindStringIndex(s); loc != nil {
+		s = s[:loc[0]]
+	}
 	// drop digits so that ids/depths do not split one finding into many
 	var b strings.Builder
 	for _, r := range s {
@@ -526,8 +533,8 @@ var prop = &hx.Prop{
 	ID: "C11", Gen: gen, Decode: decode, Exec: exec, Shrink: shrink,
 	Components: map[string]string{
 		"interpreter (parser, nodes, contexts, superglobal nodes), std/net/http Server/Handler/middleware/onError/Request/Response": "real (instrumented copy of /repo)",
-		"Go net/http ServeMux":                    "real",
-		"TCP listener, http.Server, connections":  "simulated: each client is a task calling ServeMux.ServeHTTP with an in-memory request and a SimConn",
+		"Go net/http ServeMux":                            "real",
+		"TCP listener, http.Server, connections":          "simulated: each client is a task calling ServeMux.ServeHTTP with an in-memory request and a SimConn",
 		"goroutine scheduling between in-flight requests": "simulated (seeded scheduler, statement-granular preemption, script-level gates)",
 		"oracle": "the same server script on a second fresh VM serving the same requests strictly one at a time (served twice; case discarded if the two differ)",
 	},
